@@ -30,6 +30,8 @@ def run(ctx):
     from rules import shufalg
     shufalg.algebra(ctx, facts, "ALGEBRA")
     shufalg.edges(ctx, facts, "TRANSFER")
+    shufalg.tags(ctx, facts, "TAG")
+    shufalg.tag_generation(ctx, facts, "TAG")
     fields(ctx, facts)
     tag_consts(ctx, facts)
     key_cover(ctx, facts)
